@@ -7,9 +7,10 @@ float->int conversion, division by zero, out-of-bounds / uninitialised / null ac
 function's documented precondition.  Counterexamples are replayed under -fsanitize=undefined -fno-sanitize-recover."""
 from props.common import *
 LEVEL = 'proof'
-CLAIM = ("UBSan-trap-instrumented clang IR of the scalar/vector integer, bitfield, rounding, conversion, packing, half, power-of-two/multiple and indexing functions (the sites named in the property: abs/sign "
+CLAIM = ("(i) UBSan-trap-instrumented (incl. -fsanitize=alignment) clang IR of the scalar/vector integer, bitfield, rounding, conversion, packing, half, power-of-two/multiple and indexing functions (the sites named in the property: abs/sign "
          "bit tricks, roundEven/iround/uround casts, mask/rotate/fill shifts, pack narrowing conversions, type_half, swizzle/operator[] indexing) is executed symbolically over all argument values; the solver "
-         "shows every sanitizer trap and every executor-detected UB unreachable under the documented precondition; counterexamples are replayed under a -fno-sanitize-recover build.")
+         "shows every sanitizer trap and every executor-detected UB unreachable under the documented precondition; counterexamples are replayed under a -fno-sanitize-recover build. (ii) The same for the aligned 4-component SIMD slice (GLM_FORCE_INTRINSICS, SSE2; thorough also AVX2) including packed<->aligned conversions from deliberately misaligned sources, "
+         "(iii) for the whole float catalogue of C01 (func_common / exponential / trigonometric / relational / ext common, vec1-4 and the scalar references) under C01's preconditions, and (iv) an out-of-bounds-only claim on the unoptimised (-O0) IR of the memcpy / union / pointer based functions (packing, bit casts, make_vec/mat/quat), where an executor-detected out-of-bounds access is confirmed natively under AddressSanitizer.")
 BOUNDS = 'all argument values of the listed function instances within the documented precondition (evidence: functions_encoded, per-obligation bounds); loops unwound with unwinding assertions; pure build at -O1, plus the aligned 4-component slice (c20_sse2, thorough also c20_avx2) in the GLM_FORCE_INTRINSICS build'
 OUTSIDE = ('UB no sanitizer reports (strict-aliasing of the reinterpret_cast bit casts and lowp inversesqrt - compared across optimisation levels by C15 instead); misaligned access (wrappers pass naturally aligned arrays); '
            'functions not in the table; ASan-class heap errors (the checked functions do not allocate)')
@@ -144,7 +145,7 @@ def _simd_unit(isa, flag):
     return u, TS
 SIMD = {isa: _simd_unit(isa, fl) for isa, fl in (('sse2', '-msse2'), ('avx2', '-mavx2'))}
 def simd_isas(tier): return ['sse2'] if tier == 'quick' else ['sse2', 'avx2']
-def units(tier): return [(U, '-O1', True)] + [(SIMD[i][0], '-O1', True) for i in simd_isas(tier)] + [(UM, '-O0', False)]
+def units(tier): return [(U, '-O1', True)] + [(SIMD[i][0], '-O1', True) for i in simd_isas(tier)] + [(UM, '-O0', False)] + [(u, '-O1', True) for (g, t, ql, u, cases) in _sweep()]
 NATIVE = False
 
 def job(names):
@@ -190,6 +191,18 @@ def job_mem(names):
                 S.prove(name, z3.Not(z3.Or(*conds)) if len(conds) > 1 else z3.Not(conds[0]), input_wellformed(UM.fns[n], res.ins) + res.axioms, timeout=S.cap(60, 200), kind='oob', functions=[n], bounds='unoptimised IR; symbolic offsets')
         _resolve_oob(S)
     return run
+# ---- catalogue sweep: the float (f32, all vector lengths 1-4) function catalogue of C01 (func_common, func_exponential, func_trigonometric, relational, ext/vector_common ...)
+# re-executed from UBSan-trap IR under C01's documented preconditions: no trap reachable in the vector overloads nor in the scalar references
+import props.c01 as _C01
+def _sweep():
+    _C01.build('quick')
+    return [(g, t, ql, u, cases) for (g, t, ql, u, cases) in _C01.CASES.get('quick', []) if (t == 'f32' and g in ('common', 'exptrig', 'rel', 'ext')) or (t in ('u8', 'i32') and g == 'rel')]       # integer function families have their own table entries with the documented preconditions
+def job_sweep(u, cases):
+    def run(S):
+        for C in cases:
+            if C.mode != 'fp' or C.name.startswith('floatDistance'): continue      # floatDistance: the distance must fit the return type (table entry ulp_* carries that precondition)
+            S.check_fn(u, C.name, None, C.pre, ubsan=True, unwind=C.unwind, validate=0, witness=False, timeout=S.cap(60, 200), name='c20.sweep.%s.%s' % (u.name, C.name), bounds=(C.bounds or 'all values') + '; UBSan-trap IR of the C01 wrapper (vector overload and scalar reference)')
+    return run
 def job_simd(isa, names):
     u, TS = SIMD[isa]
     def run(S):
@@ -198,8 +211,11 @@ def job_simd(isa, names):
             S.check_fn(u, n, None, pre, ubsan=True, unwind=unw, known=known, bounds=btxt + '; UBSan-trap IR, GLM_FORCE_INTRINSICS ' + isa, timeout=S.cap(60, 240), validate=0)
     return run
 def jobs(tier):
-    mem = sorted(UM.fns)
-    return jobs_pure(tier) + [('mem_%d' % k, job_mem(mem[k::4])) for k in range(4)] + [('simd_%s_%d' % (isa, k), job_simd(isa, sorted(SIMD[isa][1])[k::3])) for isa in simd_isas(tier) for k in range(3)]
+    mem = sorted(UM.fns); sw = []
+    for (g, t, ql, u, cases) in _sweep():
+        for k in range(3):
+            if cases[k::3]: sw.append(('sweep_%s_%s_%s_%d' % (g, t, ql, k), job_sweep(u, cases[k::3])))
+    return jobs_pure(tier) + sw + [('mem_%d' % k, job_mem(mem[k::4])) for k in range(4)] + [('simd_%s_%d' % (isa, k), job_simd(isa, sorted(SIMD[isa][1])[k::3])) for isa in simd_isas(tier) for k in range(3)]
 def jobs_pure(tier):
     names = sorted(U.fns)
     if tier == 'quick': names = [n for n in names if not re.search(r'_(i8|u16|i16)$', n)]
